@@ -33,6 +33,7 @@ func init() {
 		Rule{ID: "R20h", Doc: "pooled buffers are not handed to slice-retaining library calls and then released (shared with C20)", Floor: 5, Run: r20h},
 		Rule{ID: "R20e", Doc: "a struct copied into its new owner is not released through the original (shared with C20)", Floor: 1, Run: r20e},
 		Rule{ID: "R20i", Doc: "a decoded value handed to its record is not released again by the decoder (shared with C20)", Floor: 8, Run: r20i},
+		Rule{ID: "R04e", Doc: "DoH: per-request URL/query is written into an object owned by the exchange, never the shared template", Floor: 3, AllVariants: true, Run: r04e},
 	)
 }
 
